@@ -441,7 +441,7 @@ func solveFunction(fc *FnCtx, cfg SolverCfg) {
 	wg.Wait()
 	// phase 3: obligations the lock expects to be discharged and that timed out are retried one at a time (no
 	// competition for cores among them) with a much longer timeout before they are reported undecided
-	if cfg.Expect != nil {
+	if cfg.Expect != nil && os.Getenv("GOVC_NORETRY") == "" {
 		for _, o := range pending {
 			if o.Verdict == "undecided" && cfg.Expect(o.Name()) {
 				long := cfg
